@@ -801,10 +801,18 @@ func (z *BigInt) QuoRem(x, y, r *BigInt) (*BigInt, *BigInt) {
 	}
 	var tmp1, tmp2, tmp3, tmp4 big.Int //gcassert:noescape
 	zi := z.inner(&tmp1)
-	ri := r.inner(&tmp2)
+	// When r is z itself both results go into one BigInt (like math/big, the
+	// remainder is stored last); two views of the same inline array would
+	// corrupt each other.
+	ri := zi
+	if r != z {
+		ri = r.inner(&tmp2)
+	}
 	zi.QuoRem(x.inner(&tmp3), y.inner(&tmp4), ri)
 	z.updateInner(zi)
-	r.updateInner(ri)
+	if r != z {
+		r.updateInner(ri)
+	}
 	return z, r
 }
 
